@@ -20,7 +20,9 @@ type tmpl struct {
 	Ops  []ast.Expr
 }
 
-func (t tmpl) concat(o tmpl) tmpl { return tmpl{t.Text + o.Text, append(append([]ast.Expr{}, t.Ops...), o.Ops...)} }
+func (t tmpl) concat(o tmpl) tmpl {
+	return tmpl{t.Text + o.Text, append(append([]ast.Expr{}, t.Ops...), o.Ops...)}
+}
 
 // formatTemplate: a printf format with its operands.
 func formatTemplate(format string, ops []ast.Expr) (tmpl, bool) {
